@@ -1290,3 +1290,16 @@ def lex_tex(skel):
     if envs:
         issues.append(('balance', 'unclosed environments %s' % envs, None, None))
     return issues, holes
+
+
+def clone_renderer(obj):
+    """A copy of an evaluated renderer whose dispatch table dispatches to the copy (bound methods are rebound) and
+    whose list / dict attributes are its own."""
+    from .interp import BoundMethod
+    r = clone_obj(obj)
+    for k, v in list(r.attrs.items()):
+        if k == 'render_map' and isinstance(v, dict):
+            r.attrs[k] = {n: (BoundMethod(f.func, r) if isinstance(f, BoundMethod) and f.receiver is obj else f) for n, f in v.items()}
+        elif type(v) in (list, dict, set):
+            r.attrs[k] = type(v)(v)
+    return r
